@@ -88,9 +88,34 @@ Definition device_teardown_events (m : mst) (p : N) : list obs :=
   map (removal_event (w m) EvBind) (filter (own p) (breg m)) ++ [device_event p].
 
 (* entities [gone] of p announced as removed: one event per entry of (p, e) *)
-Definition entity_teardown_events (m : mst) (p : N) (gone : list eaddr) : list obs :=
-  map (removal_event (w m) EvSub) (filter (of_entity p gone) (sreg m)) ++
-  map (removal_event (w m) EvBind) (filter (of_entity p gone) (breg m)).
+Definition entity_teardown_events (wd : st) (p : N) (gone : list eaddr) (sr br : list sentry) : list obs :=
+  map (removal_event wd EvSub) (filter (of_entity p gone) sr) ++
+  map (removal_event wd EvBind) (filter (of_entity p gone) br).
+
+Definition ref_of_entity (p : N) (gone : list eaddr) (x : centry) : bool :=
+  N.eqb (c_ski x) p && existsb (eqb_eaddr (fa_ent (c_addr x))) gone.
+
+Definition complete_entry (p d : N) (x : sentry) : sentry :=
+  if N.eqb (s_ski x) p then {| s_srv := s_srv x; s_ski := s_ski x; s_cli := complete_cli d (s_cli x) |} else x.
+
+(* the address under which an accepted reply of p makes the local node management subscribe: the
+   device part of the node-management feature the reply came in through, else the address the
+   connection has announced by now *)
+Definition nm_subscription (wd : st) (p : N) (dm : disc_msg) (out : list obs) : option N :=
+  if reply_accepted p out then
+    match find_peer wd p with
+    | Some pe =>
+        match remote_feature pe (nm_addr None) with
+        | Some (_, rf) =>
+            match rf_dev rf with
+            | Some d0 => Some d0
+            | None => match dm_dev dm with Some d => Some d | None => p_addr pe end
+            end
+        | None => None
+        end
+    | None => None
+    end
+  else None.
 
 Definition gone_ents (out : list obs) : list eaddr :=
   flat_map (fun x => match x with OEvent EvEntity ChRemove _ (Some e) _ _ => [e] | _ => [] end) out.
@@ -173,22 +198,35 @@ Definition mon (m : mst) (o : op) (out : list obs) : mst * verdict :=
       (set_accounts m o (conn m)
          (filter (fun x => negb (of_entity p gone x)) (sreg m))
          (filter (fun x => negb (of_entity p gone x)) (breg m))
-         (filter (fun x => negb (N.eqb (c_ski x) p && existsb (eqb_eaddr (fa_ent (c_addr x))) gone)) (cref m)),
-       check (same_multiset eqb_obs_event (entity_teardown_events m p gone) (map norm_event (filter is_reg_event out))) CL_EVENTS ++
+         (filter (fun x => negb (ref_of_entity p gone x)) (cref m)),
+       check (same_multiset eqb_obs_event (entity_teardown_events (w m) p gone (sreg m) (breg m))
+                (map norm_event (filter is_reg_event out))) CL_EVENTS ++
        silent (conn m) out)
-  | DiscoveryReply p _ =>
-      (* once the reply is accepted the local node management subscribes to the peer's *)
-      let accepted := existsb (fun x => match x with OEvent EvDevice ChAdd q _ _ _ => N.eqb q p | _ => false end) out in
-      let cr := match find_peer (fst (step (w m) o)) p with
-                | Some pe => match p_addr pe with
-                             | Some d => if accepted
-                                         then cref m ++ [ {| c_ent := [0%N]; c_feat := 0; c_sub := true; c_ski := p; c_addr := nm_addr (Some d) |} ]
-                                         else cref m
+  | DiscoveryReply p dm =>
+      (* an accepted reply (a) completes the address of the node-management feature it came in
+         through: entries made through it before the reply carry the device address from now on;
+         (b) lets the local node management subscribe to the peer's node management: recorded for
+         the connection that announces that address; (c) removes the entities it no longer lists:
+         entity-removed notifications, judged like those of a notification *)
+      let gone := gone_ents out in
+      let w1 := fst (step (w m) o) in
+      let sr := match nm_completion (w m) p dm out with Some d => map (complete_entry p d) (sreg m) | None => sreg m end in
+      let br := match nm_completion (w m) p dm out with Some d => map (complete_entry p d) (breg m) | None => breg m end in
+      let cr := match nm_subscription (w m) p dm out with
+                | Some d0 => match peer_by_addr w1 d0 with
+                             | Some pq => cref m ++ [ {| c_ent := [0%N]; c_feat := 0; c_sub := true; c_ski := p_ski pq;
+                                                         c_addr := nm_addr (Some d0) |} ]
                              | None => cref m
                              end
                 | None => cref m
                 end in
-      (set_accounts m o (conn m) (sreg m) (breg m) cr, silent (conn m) out)
+      (set_accounts m o (conn m)
+         (filter (fun x => negb (of_entity p gone x)) sr)
+         (filter (fun x => negb (of_entity p gone x)) br)
+         (filter (fun x => negb (ref_of_entity p gone x)) cr),
+       check (same_multiset eqb_obs_event (entity_teardown_events (w m) p gone sr br)
+                (map norm_event (filter is_reg_event out))) CL_EVENTS ++
+       silent (conn m) out)
   | SubCall p _ _ _ => (set_accounts m o (conn m) (sreg m ++ added EvSub out) (breg m) (cref m), silent (conn m) out)
   | BindCall p _ _ _ => (set_accounts m o (conn m) (sreg m) (breg m ++ added EvBind out) (cref m), silent (conn m) out)
   | SubDelete p _ _ c => (set_accounts m o (conn m) (after_delete m p c EvSub out (sreg m)) (breg m) (cref m), silent (conn m) out)
@@ -237,10 +275,9 @@ Definition mon (m : mst) (o : op) (out : list obs) : mst * verdict :=
    (CleanRemoteDeviceCaches / CleanRemoteEntityCaches), not by connection.  The client
    clause is excused once device addresses have stopped identifying connections:
      - two connections that are there at the same time announce the same device address, or
-     - a connection re-announces a different device address, or
-     - an entity carries a device address other than the one its connection announced
-       (a connection that has not announced its own address announces entities under one,
-       or its discovery reply does not list an entity announced earlier). *)
+     - a connection re-announces a different device address.
+   (Entity removal cleans with the remote DEVICE's address since bbf4b62, so the address an
+   entity happens to be stored under no longer matters.) *)
 Fixpoint distinct_addrs (l : list peer) : bool :=
   match l with
   | [] => true
@@ -251,27 +288,19 @@ Fixpoint distinct_addrs (l : list peer) : bool :=
       end && distinct_addrs r
   end.
 
-Definition addr_ok (s : st) : bool :=
-  distinct_addrs (peers s) &&
-  forallb (fun pe => forallb (fun en => eqb_optN (re_dev en) (p_addr pe)) (p_ents pe)) (peers s).
+Definition addr_ok (s : st) : bool := distinct_addrs (peers s).
 
-(* an operation after which device addresses no longer identify connections *)
+(* an operation after which device addresses no longer identify connections: a connection
+   re-announces a different device address *)
 Definition addr_event (s : st) (o : op) : bool :=
   match o with
   | DiscoveryReply p m =>
-      (* a connection re-announces a different device address *)
       match find_peer s p with
       | Some pe =>
           match remote_feature pe (nm_addr None), p_addr pe, dm_dev m with
           | Some _, Some d, Some d' => negb (N.eqb d d')
           | _, _, _ => false
           end
-      | None => false
-      end
-  | DiscoveryNotify p _ _ m =>
-      (* a connection that has not announced its device address announces entities under one *)
-      match find_peer s p with
-      | Some pe => match p_addr pe, dm_dev m with None, Some _ => true | _, _ => false end
       | None => false
       end
   | _ => false
